@@ -302,7 +302,12 @@ def base_never_to_app(kind: int) -> bool:
         got = len(b.apps[0].requests)
     except Exception as e:
         return hx.fail((kind,), "raised %s" % type(e).__name__)
-    return hx.check((kind,), (got, [(x[0], x[1]) for x in out]), (0, [(False, [257, 280, 282][k])]), "capabilities-exchange, watchdog and disconnect requests are never handed to applications")
+    code = [257, 280, 282][k]
+    outs = [(x[0], x[1]) for x in out]
+    # DWR and DPR are answered by the node; whether a CER on an established connection is answered is not this property's
+    # business (it is ignored since 55e133f) - it must never reach an application
+    ok = got == 0 and (outs == [(False, code)] or (k == 0 and outs == []))
+    return hx.holds((kind,), ok, (got, outs), "capabilities-exchange, watchdog and disconnect requests are never handed to applications")
 
 
 def specs(tier, seed, carve):
